@@ -21,9 +21,12 @@ logging.disable(logging.CRITICAL)
 EXTRA = {
     "assumptions": [
         "cells and index labels are scalars of the StarTable kinds: int / float / bool (numpy or Python), str, "
-        "tz-naive Timestamp / datetime, and the missing flavours None, NaN, NaT, pd.NA; containers, tz-aware "
-        "timestamps and objects with a user-defined __eq__ are outside the statement (a comparison that raises "
-        "makes equals return False)",
+        "tz-naive and tz-aware Timestamp / datetime (aware ones compare by instant, aware vs naive is unequal), and "
+        "the missing flavours None, NaN, NaT, pd.NA; containers (an ndarray cell makes t.equals(t) False through the "
+        "`except Exception` arm) and objects with a user-defined __eq__ are outside the statement",
+        "equals reads name / units / column names through get_table_info(check_dataframe=True), so on a table whose "
+        "column units are inconsistent with its dtypes it raises ColumnUnitException instead of answering; the "
+        "tables generated here are consistent (units follow dtypes), such tables are C15's subject",
         "both objects are instances of the same class: `isinstance(other, self.__class__)` makes "
         "Table.equals(sub) True and sub.equals(table) False for an instance `sub` of a Table subclass with the "
         "same content (modelled, proved as `subclass_asymmetric`, compared with the code each run, not part of "
@@ -43,6 +46,9 @@ NUM_UNITS = ["m", "mm", "-", "kg", "C"]
 NAMES = ["t", "tab", "T", "é_1", "t "]
 COLNAMES = ["a", "b", "c", "d", "A", "col é", "x_1"]
 DESTS = [["all"], ["x", "y"], ["y", "x", "z"], ["all", "x"], []]
+# tz-aware instants: {"tsz": [wall-clock iso, zone]}; the first two are the same instant in different zones
+TSZ = [{"tsz": ["2020-01-01T12:00:00", "UTC"]}, {"tsz": ["2020-01-01T13:00:00", "Europe/Copenhagen"]},
+       {"tsz": ["2020-01-01T12:00:00", "Europe/Copenhagen"]}, {"tsz": ["2020-06-01T12:00:00", "UTC"]}]
 TS = ["2020-01-01T00:00:00", "2020-01-01T00:00:00.000001", "1999-12-31T23:59:59", "2021-06-01T12:00:00"]
 
 # spec values are JSON-native: int, float(finite), bool, str, None, {"v": "nan"|"inf"|"-inf"|"nat"|"na"}, {"ts": iso}
@@ -52,8 +58,12 @@ POOL = {
               {"v": "inf"}, {"v": "-inf"}, 3.0, 7.0],
     "bool": [True, False],
     "text": ["x", "y", "", "X", "1", "nan", "é", None, "x "],
-    "object": [1, 1.0, True, "x", "1", None, {"v": "nan"}, {"v": "nat"}, {"v": "na"}, 2.5, {"ts": TS[0]}, "y", 0, False],
+    "object": [1, 1.0, True, "x", "1", None, {"v": "nan"}, {"v": "nat"}, {"v": "na"}, 2.5, {"ts": TS[0]}, "y", 0, False,
+               {"tsz": ["2020-01-01T12:00:00", "UTC"]}, {"tsz": ["2020-01-01T13:00:00", "Europe/Copenhagen"]},
+               {"tsz": ["2020-01-01T12:00:00", "Europe/Copenhagen"]}, {"ts": "2020-01-01T12:00:00"}],
     "datetime": [{"ts": t} for t in TS] + [{"v": "nat"}],
+    "dt_utc": TSZ + [{"v": "nat"}],
+    "dt_cph": TSZ + [{"v": "nat"}],
     "Int64": [0, 1, 2, 3, -1, {"v": "na"}, 7],
     "Float64": [0.0, 1.0, 2.5, {"v": "na"}, 3.0],
     "boolean": [True, False, {"v": "na"}],
@@ -68,6 +78,8 @@ def dec(v):
     if isinstance(v, dict):
         if "ts" in v:
             return pd.Timestamp(v["ts"])
+        if "tsz" in v:
+            return pd.Timestamp(v["tsz"][0], tz=v["tsz"][1])
         return {"nan": float("nan"), "inf": float("inf"), "-inf": float("-inf"), "nat": pd.NaT, "na": pd.NA}[v["v"]]
     return v
 
@@ -77,7 +89,7 @@ def unit_for(kind, rng):
         return "onoff"
     if kind in ("text", "object", "string"):
         return "text"
-    if kind == "datetime":
+    if kind in ("datetime", "dt_utc", "dt_cph"):
         return "datetime"
     return rng.choice(NUM_UNITS)
 
@@ -101,6 +113,10 @@ def make_array(col):
         return a
     if k == "datetime":
         return pd.array(vals, dtype="datetime64[us]")
+    if k in ("dt_utc", "dt_cph"):
+        # a tz-aware datetime column: every instant expressed in the column's own zone
+        zone = "UTC" if k == "dt_utc" else "Europe/Copenhagen"
+        return pd.DatetimeIndex([v if v is pd.NaT else v.tz_convert(zone) for v in vals]).as_unit("us").array
     if k in ("Int64", "Float64", "boolean", "string"):
         return pd.array(vals, dtype=k)
     raise InfraError("unknown column kind " + k)
@@ -214,6 +230,8 @@ def sc(x):
     if isinstance(x, str):
         return {"s": x}
     if isinstance(x, (pd.Timestamp, datetime.datetime)):
+        if x.tzinfo is not None:
+            return {"z": str(pd.Timestamp(x).as_unit("ns").value)}      # .value of an aware Timestamp: UTC instant
         return {"t": str(pd.Timestamp(x).as_unit("ns").value)}
     raise InfraError(f"scalar outside the modelled kinds: {type(x).__name__}")
 
@@ -257,6 +275,10 @@ def ref_val_eq(x, y):
     if isinstance(x, str) and isinstance(y, str):
         return x == y
     if isinstance(x, (pd.Timestamp, datetime.datetime)) and isinstance(y, (pd.Timestamp, datetime.datetime)):
+        if (x.tzinfo is None) != (y.tzinfo is None):
+            return False                                  # a wall-clock time is not an instant
+        if x.tzinfo is not None:                          # same instant, whatever the zones
+            return x.astimezone(datetime.timezone.utc) == y.astimezone(datetime.timezone.utc)
         return pd.Timestamp(x).as_unit("ns").value == pd.Timestamp(y).as_unit("ns").value
     return False
 
@@ -368,7 +390,7 @@ def mutate(rng, spec, kind):
         return s, False
     if not cols:
         return None, None
-    want = {"dtype": ("int", "float", "Int64"), "missing_dtype": ("Int64", "string", "text"),
+    want = {"dtype": ("int", "float", "Int64", "dt_utc", "dt_cph"), "missing_dtype": ("Int64", "string", "text"),
             "missing_flavour": ("object",), "number_type_cell": ("object",)}.get(kind)
     elig = [k for k in range(len(cols)) if want is None or cols[k]["kind"] in want]
     if not elig:
@@ -381,7 +403,7 @@ def mutate(rng, spec, kind):
     if kind == "unit":
         if c["kind"] in ("bool", "boolean", "text", "object", "string"):
             # special units are forced by the dtype; pick a numeric column instead if there is one
-            num = [x for x in cols if x["kind"] in ("int", "float", "datetime", "Int64", "Float64")]
+            num = [x for x in cols if x["kind"] in ("int", "float", "datetime", "dt_utc", "dt_cph", "Int64", "Float64")]
             if not num:
                 return None, None
             c = rng.choice(num)
@@ -389,7 +411,7 @@ def mutate(rng, spec, kind):
         return s, False
     if kind == "unit_swap":
         # the same units on other columns: two numeric columns exchange their (different) units
-        num = [x for x in cols if x["kind"] in ("int", "float", "datetime", "Int64", "Float64")]
+        num = [x for x in cols if x["kind"] in ("int", "float", "datetime", "dt_utc", "dt_cph", "Int64", "Float64")]
         pairs = [(x, y) for x in num for y in num if x is not y and x["unit"] != y["unit"]]
         if not pairs:
             return None, None
@@ -417,6 +439,9 @@ def mutate(rng, spec, kind):
         if c["kind"] == "Int64":
             c["kind"] = "Float64"
             c["values"] = [v if isinstance(v, dict) else float(v) for v in c["values"]]
+            return s, True
+        if c["kind"] in ("dt_utc", "dt_cph"):
+            c["kind"] = "dt_cph" if c["kind"] == "dt_utc" else "dt_utc"      # the same instants in another time zone
             return s, True
         return None, None
     if kind == "missing_dtype":
@@ -478,7 +503,12 @@ def scalar_pool():
             1.00000000000001, 2 ** 53, 2 ** 53 + 1, float(2 ** 53), 1e300, float("inf"), float("-inf"),
             np.int64(1), np.float64(1.0), np.float64("nan"), np.bool_(True), "x", "", "1", "1.0", "True", "nan",
             "None", "é", pd.Timestamp(TS[0]), pd.Timestamp(TS[1]), datetime.datetime(2020, 1, 1),
-            pd.Timestamp(TS[0]).as_unit("ns"), "2020-01-01T00:00:00", "2020-01-01 00:00:00"]
+            pd.Timestamp(TS[0]).as_unit("ns"), "2020-01-01T00:00:00", "2020-01-01 00:00:00",
+            # tz-aware: the same instant in three zones / as a datetime, another instant, the naive wall-clock time
+            pd.Timestamp("2020-01-01T12:00:00", tz="UTC"), pd.Timestamp("2020-01-01T13:00:00", tz="Europe/Copenhagen"),
+            pd.Timestamp("2020-01-01T13:00:00+01:00"), datetime.datetime(2020, 1, 1, 12, tzinfo=datetime.timezone.utc),
+            pd.Timestamp("2020-01-01T12:00:00", tz="Europe/Copenhagen"), pd.Timestamp("2020-01-01T12:00:00"),
+            datetime.datetime(2020, 1, 1, 12)]
 
 
 # ---------------------------------------------------------------- run
@@ -583,7 +613,7 @@ def eval_pair(case, out, ops, pend, model_ok, record=True):
 def gen_history(rng, base):
     """(a, b, expected at step 0, edits): a pair that is compared, then one header aspect of one of the two
     objects is changed in place (making them differ / agree), compared, changed back, compared"""
-    num = [c for c in base["cols"] if c["kind"] in ("int", "float", "datetime", "Int64", "Float64")]
+    num = [c for c in base["cols"] if c["kind"] in ("int", "float", "datetime", "dt_utc", "dt_cph", "Int64", "Float64")]
     op = rng.choice(["name", "dests"] + (["unit_proxy", "units_setter", "unit_proxy", "units_setter"] if num else []))
     on = rng.choice(["a", "b"])
     a, b = copy.deepcopy(base), copy.deepcopy(base)
